@@ -258,6 +258,7 @@ type Q struct {
 
 	// cached by prep(): the join levels of this operator
 	prepared                        bool
+	str                             string
 	lvl, lvlMust, lvlShould, lvlNot string
 }
 
@@ -280,6 +281,7 @@ func (q *Q) prep() {
 		q.lvlShould = commonPath(pathsOf(q.Should))
 		q.lvlNot = commonPath(pathsOf(q.MustNot))
 	}
+	q.str = q.String()
 	q.prepared = true
 }
 
@@ -299,6 +301,9 @@ func (q *Q) effMin() int {
 func T(f, v string) *Q { return &Q{Kind: "term", Field: f, Val: v} }
 
 func (q *Q) String() string {
+	if q.str != "" {
+		return q.str
+	}
 	l := func(qs []*Q) string {
 		var s []string
 		for _, x := range qs {
@@ -497,7 +502,15 @@ func countHit(ms [][]*node, a *node) int {
 }
 
 // meet of two nesting paths: the deepest level that is an ancestor-or-self of both
-func meet(a, b string) string { return commonPath(map[string]bool{a: true, b: true}) }
+func meet(a, b string) string {
+	switch {
+	case a == b:
+		return a
+	case a == "" || b == "" || a == "tags" || b == "tags":
+		return ""
+	}
+	return "items" // items vs items.subs
+}
 
 func (e *evaluator) eval(q *Q) []*node {
 	if !q.prepared {
